@@ -18,7 +18,7 @@ for d in sorted(glob.glob("/verif/seeded/*/"), key=key):
     sigs = []
     for _, v in caught:
         sigs += v.get("signatures", [])
-    first = m.get("initial_verdict", "?").strip().rstrip(",")
+    first = m.get("initial_verdict", "?").strip().rstrip(",").split(" ")[0]
     note = " (superseded by a fix)" if m.get("superseded") else ""
     summary = " ".join(str(m.get("summary", "")).split())[:110].replace("|", "/")
     rows.append(f"| {name} | {summary} | {first} | {now}{note} | {by} | `{', '.join(sigs[:2])}` |")
